@@ -44,6 +44,17 @@ Definition uasc_ok (has_key : bool) (p m : N) : bool := consistent p m && ((p =?
 Definition opn_accept (enabled : list secpair) (has_key : bool) (p m : N) : bool :=
   match accept_security enabled p m with None => uasc_ok has_key p m | Some _ => false end.
 
+(* OpenSecureChannel comes in two request types: Issue opens the channel, Renew asks for a new token on an open channel.
+   The policy of the chunk header and the mode of the request are adopted in both cases (readChunk,
+   handleOpenSecureChannelRequest: s.cfg.SecurityMode = req.SecurityMode), so the configuration is consulted in both:
+   a renewed token runs under the pair named by the Renew. *)
+Inductive opn_kind := OpnIssue | OpnRenew.
+Definition opn_accept_k (enabled : list secpair) (has_key : bool) (k : opn_kind) (p m : N) : bool :=
+  match k with
+  | OpnIssue => opn_accept enabled has_key p m
+  | OpnRenew => opn_accept enabled has_key p m
+  end.
+
 (* ... and before it: the configuration was not consulted *)
 Definition opn_accept_before_fix (enabled : list secpair) (has_key : bool) (p m : N) : bool := uasc_ok has_key p m.
 
